@@ -287,8 +287,18 @@ func cmdPlan(args []string) {
 	}
 	engDist := mkDist()
 	ref := promql.NewEngine(promOpts(EngineCfg{}))
-	for _, rng := range []bool{false, true} {
-		for _, qs := range queries {
+	start0 := start
+	for _, wmode := range []int{0, 1, 2} {
+		// instant; range; a range whose start and end coincide (one step, still a range: a matrix)
+		rng := wmode > 0
+		start := start0
+		if wmode == 2 {
+			start = end
+		}
+		for qi, qs := range queries {
+			if wmode == 2 && qi%3 != 0 {
+				continue
+			}
 			expr, err := parser.ParseExpr(qs)
 			if err != nil {
 				continue
